@@ -286,6 +286,32 @@ RA_WITNESS = (corpus.HEADER + "def fz(xn):\n    for ia in range(2):\n        for
               "while True:\n    d5.Setting = fz(d0.Setting)\n    d5.Setting = fz(1)\n    yield_()\n")
 
 
+def big_programs():
+    """programs with 17 / 20 / 24 simultaneously live values, in one scope and split between a caller and a function called twice"""
+    big = []
+    for k in (17, 20, 24):
+        reads = "\n".join("    w%d = d0.Setting + %d" % (i, i) for i in range(k))
+        tot = " + ".join("w%d" % i for i in range(k))
+        big.append(("pr_over_%d" % k, corpus.HEADER + "while True:\n" + reads + "\n    d1.Setting = " + tot + "\n    d2.Setting = w0 - w%d\n    yield_()\n" % (k - 1), "pressure"))
+    for outer, inner in [(o, i) for o in range(3, 8) for i in range(3, 8) if 7 <= o + i <= 10]:
+        ireads = "\n".join("    u%d = xa + %d" % (i, i + 1) for i in range(inner - 1))
+        itot = " + ".join("u%d" % i for i in range(inner - 1))
+        oreads = "\n".join("    w%d = d0.Setting + %d" % (i, i + 1) for i in range(outer - 1))
+        otot = " + ".join("w%d" % i for i in range(outer - 1))
+        big.append(("pr_split_%d_%d" % (outer, inner), corpus.HEADER + "def fa(xa):\n" + ireads + "\n    return " + itot + "\nwhile True:\n" + oreads +
+                    "\n    wz = fa(w0) + fa(1)\n    d1.Setting = wz + " + otot + "\n    yield_()\n", "pressure"))
+        # one register more (a plain load has no temporary): the counts step by two otherwise
+        big.append(("pr_splitx_%d_%d" % (outer, inner), corpus.HEADER + "def fa(xa):\n    ux = d2.Setting\n" + ireads + "\n    return ux + " + itot + "\nwhile True:\n" + oreads +
+                    "\n    wz = fa(w0) + fa(1)\n    d1.Setting = wz + " + otot + "\n    yield_()\n", "pressure"))
+    # exactly sixteen and exactly seventeen registers: module-level values live across two calls of a function with five locals
+    for extra in (False, True):
+        src = (corpus.HEADER + "def fa(xa):\n" + "".join("    t%d = d1.Setting + xa\n" % k for k in range(5)) + "    d1.Setting = t0 + t1 + t2 + t3 + t4\n"
+               + "".join("v%d = d0.Setting\n" % k for k in range(4)) + ("wr = d0.Ratio\n" if extra else "") + "fa(v0)\nfa(v1)\nd0.Setting = v0 + v1 + v2 + v3\n"
+               + ("d0.Ratio = wr\n" if extra else ""))
+        big.append(("pr_exactly_%d" % (17 if extra else 16), src, "pressure"))
+    return big
+
+
 def check_c04(tier, t0):
     import proggen
     progs = pick(all_progs(), tier, 90)
@@ -398,11 +424,7 @@ def check_c04(tier, t0):
                                                  "a_text": it.get("a_text"), "b_text": it.get("b_text"), "spec": "Lockstep.tla"},
                                                 "case=%s variant=%s lockstep verdict=%s" % (it["name"], it["tag"], v)) else 0
     # programs that need more than 16 registers must be rejected, not emitted
-    big = []
-    for k in (17, 20, 24):
-        reads = "\n".join("    w%d = d0.Setting + %d" % (i, i) for i in range(k))
-        tot = " + ".join("w%d" % i for i in range(k))
-        big.append(("pr_over_%d" % k, corpus.HEADER + "while True:\n" + reads + "\n    d1.Setting = " + tot + "\n    d2.Setting = w0 - w%d\n    yield_()\n" % (k - 1), "pressure"))
+    big = big_programs()
     bm = compile_matrix(big, [cw.REF])
     for n, s, _ in big:
         r = bm[(n, "-")]
@@ -632,7 +654,8 @@ def check_c06(tier, t0):
     progs = pick(all_progs(["functions", "pressure"]) + names_family(twice=True)[:3], tier, 16)
     vecs = [cw.REF, cw.opts(use_push_pop_functions=True), cw.opts(tail_call_optimization=True),
             cw.opts(use_push_pop_functions=True, tail_call_optimization=True),
-            cw.opts(inline_functions=True, tail_call_optimization=True), cw.opts(inline_functions=True)]
+            cw.opts(inline_functions=True, tail_call_optimization=True), cw.opts(inline_functions=True),
+            cw.opts(inline_functions=True, use_push_pop_functions=True)]
     if tier == "thorough":
         vecs += [dict(v, compact=True) for v in vecs[1:]] + [cw.opts(inline_functions=True, tail_call_optimization=True, use_push_pop_functions=True)]
     mat = compile_matrix(progs, vecs)
